@@ -597,7 +597,10 @@ def _replay_keyed(ops):
         for op in ops:
             t = op.split()
             d = [] if t[2] == '-' else [int(x) for x in t[2].split(',')]
-            (reg.apply_projector if t[0] == 'pa' else reg.unapply_projector)(int(t[1]), d)
+            pr = int(t[1])
+            if t[0] == 'pu' and pr in a and set(d) == a[pr]:
+                d = reg.get_projector_tgts(pr)          # the generator passes the stored set itself in this case
+            (reg.apply_projector if t[0] == 'pa' else reg.unapply_projector)(pr, d)
             want.append(_keyed_dump(a) + ' | ' + _keyed_dump(b))
         got = C.run_driver('drv_keyed', '\n'.join(ops) + '\n')
         bad = 0
@@ -610,7 +613,7 @@ def _replay_keyed(ops):
         t = op.split()
         d = [] if len(t) < 3 or t[2] == '-' else [int(x) for x in t[2].split(',')]
         k = int(t[1])
-        {'as': lambda: ks.add_data_set(k, d), 'rs': lambda: ks.rm_data_set(k, d),
+        {'as': lambda: ks.add_data_set(k, d), 'rs': lambda: ks.rm_data_set(k, ks[k] if k in ks and set(d) == ks[k] else d),
          'ae': lambda: ks.add_data_entry(k, d[0]), 're': lambda: ks.rm_data_entry(k, d[0]),
          'dk': lambda: ks.pop(k, None)}[t[0]]()
         want.append(_keyed_dump(ks))
